@@ -25,6 +25,9 @@ WZ = "kaira/models/wyner_ziv.py"
 BER = "kaira/metrics/signal/ber.py"
 BLER = "kaira/metrics/signal/bler.py"
 BM = "kaira/benchmarks/metrics.py"
+AN = "kaira/channels/analog.py"
+SNRU = "kaira/utils/snr.py"
+SNRM = "kaira/metrics/signal/snr.py"
 WAG = "kaira/models/fec/decoders/wagner_soft_decision_decoder.py"
 RMD = "kaira/models/fec/decoders/reed_muller_decoder.py"
 BP = "kaira/models/fec/decoders/belief_propagation.py"
@@ -117,4 +120,26 @@ MUTANTS = {
         ("twin: update temporaries renamed", BER, "            errors = (x_bits != y_bits).float()\n            batch_errors = errors.sum().long()\n            batch_bits = x.numel()", "            mism = (x_bits != y_bits).float()\n            batch_errors = mism.sum().long()\n            batch_bits = x.numel()", "silent"),
         ("twin: reset fill", BER, "        self.total_bits.zero_()\n        self.error_bits.zero_()", "        self.error_bits.zero_()\n        self.total_bits.zero_()", "silent"),
     ],
+    "C07": [
+        ("complex noise gets full power per component", AN, "noise_power_component = noise_power * 0.5", "noise_power_component = noise_power", "violation", "VARIANCE-LAW"),
+        ("real noise std not sqrt", AN, "noise = torch.randn_like(x) * torch.sqrt(noise_power)", "noise = torch.randn_like(x) * noise_power", "violation", "VARIANCE-LAW"),
+        ("snr uses amplitude convention", SNRU, "return 10 ** (snr_db / 10.0)", "return 10 ** (snr_db / 20.0)", "violation"),
+        ("snr_to_noise_power multiplies", SNRU, "result = signal_power / snr_linear", "result = signal_power * snr_linear", "violation"),
+        ("laplacian component scale dropped", AN, "component_scale = scale / (2**0.5)", "component_scale = scale", "violation", "LaplacianChannel"),
+        ("laplacian variance convention", AN, "scale = torch.sqrt(target_noise_power / 2)", "scale = torch.sqrt(target_noise_power)", "violation", "LaplacianChannel"),
+        ("awgn override scaled", AN, "        if noise is not None:\n            return x + noise\n\n        return _apply_noise", "        if noise is not None:\n            return x + 0.5 * noise\n\n        return _apply_noise", "violation", "OVERRIDE"),
+        ("awgn signal attenuated", AN, "    return x + noise\n\n\n@ChannelRegistry.register_channel()\nclass AWGNChannel", "    return 0.5 * x + noise\n\n\n@ChannelRegistry.register_channel()\nclass AWGNChannel", "violation", "_apply_noise"),
+        ("fading noise calibrated on x", AN, "signal_power = torch.mean(torch.abs(y) ** 2)\n                # self.snr_db is guaranteed", "signal_power = torch.mean(torch.abs(x) ** 2)\n                # self.snr_db is guaranteed", "violation", "FlatFadingChannel"),
+        ("fading noise full power per component", AN, "component_noise_power = noise_power_tensor * 0.5", "component_noise_power = noise_power_tensor", "violation", "FlatFadingChannel"),
+        ("metric 20 log10", SNRM, "                snr = 10 * torch.log10(snr_linear)\n            else:\n                snr = snr_linear\n\n            # Return scalar tensor", "                snr = 20 * torch.log10(snr_linear)\n            else:\n                snr = snr_linear\n\n            # Return scalar tensor", "violation", "DB-KIND"),
+        ("calculate_snr inverted", SNRU, "return 10 * torch.log10(original_power / noise_power)", "return 10 * torch.log10(noise_power / original_power)", "violation", "DB-KIND"),
+        ("benchmark snr amplitude ratio", BM, "        signal_power = torch.mean(torch.abs(signal) ** 2)\n        noise_power = torch.mean(torch.abs(noise) ** 2)\n\n        if noise_power == 0:", "        signal_power = torch.mean(torch.abs(signal))\n        noise_power = torch.mean(torch.abs(noise))\n\n        if noise_power == 0:", "violation", "DB-KIND"),
+        ("add_noise_for_snr complex std", SNRU, "noise_std = torch.sqrt(noise_power / 2)", "noise_std = torch.sqrt(noise_power) / 2", "violation", "add_noise_for_snr"),
+        ("nonlinear noise on input", AN, "y = _apply_noise(y, snr_db=self.snr_db, noise_power=self.avg_noise_power)", "y = y + (_apply_noise(x, snr_db=self.snr_db, noise_power=self.avg_noise_power) - x)", "violation", "NonlinearChannel"),
+        ("laplace sampler two draws", AN, "        abs_shifted_u = torch.abs(shifted_u)", "        abs_shifted_u = torch.abs(torch.rand(shape, device=device) - 0.5)", "violation", "LAPLACE-UNIT"),
+        ("twin: P/2 instead of P*0.5", AN, "noise_power_component = noise_power * 0.5", "noise_power_component = noise_power / 2", "silent"),
+        ("twin: sqrt split", AN, "component_scale = scale / (2**0.5)", "component_scale = scale * (0.5**0.5)", "silent"),
+        ("twin: rename", AN, "        noise_real = torch.randn_like(x.real) * torch.sqrt(noise_power_component)\n        noise_imag = torch.randn_like(x.imag) * torch.sqrt(noise_power_component)\n        noise = torch.complex(noise_real, noise_imag)", "        std = torch.sqrt(noise_power_component)\n        n_re = torch.randn_like(x.real) * std\n        n_im = torch.randn_like(x.imag) * std\n        noise = torch.complex(n_re, n_im)", "silent"),
+    ],
 }
+
